@@ -157,7 +157,10 @@ def run(chk, prog, tier):
     chk.floor("mappings that become the code buffer", nmap, 1)
     create = prog.fn("asm_create_instance")
     init_len = None
-    for m in walk(prog.body(create)):
+    # creation and the static helpers only it calls
+    creators = [create] + [lib[c] for c in sorted(roles.g.get("asm_create_instance", ())) if c in lib and
+                           lib[c].get("storageClass") == "static" and EFF.callers_of(roles.g, c) == ["asm_create_instance"]]
+    for m in [x for cf in creators for x in walk(prog.body(cf))]:
         if m.get("kind") == "BinaryOperator" and m.get("opcode") == "=":
             l = strip(kids(m)[0])
             if l.get("kind") == "MemberExpr" and l.get("name") == "buffer_len":
@@ -169,7 +172,9 @@ def run(chk, prog, tier):
     chk.require(init_len is not None, "LEN", "LEN/initial-const", loc_str(create), "the internal buffer length is a constant set at creation", "not found")
     # growth protocol
     growers = [fn for fn, f in lib.items() if any(c.get("kind") == "CallExpr" and callee_name(c) == "mremap" for c in walk(prog.body(f)))]
-    buffer_writers = sorted(fn for fn, f in lib.items() if fn != "asm_create_instance" and
+    creator_names = {"asm_create_instance"} | {c for c in roles.g.get("asm_create_instance", ()) if c in lib and
+                                                 lib[c].get("storageClass") == "static" and EFF.callers_of(roles.g, c) == ["asm_create_instance"]}
+    buffer_writers = sorted(fn for fn, f in lib.items() if fn not in creator_names and
                             any(a.owner == "assemblyline" and a.field == "buffer" and a.ctx in ("w", "rw") and strip(a.node).get("kind") == "MemberExpr"
                                 for a in EFF.accesses(prog.body(f))))
     chk.analysed["buffer_writers"] = buffer_writers
